@@ -98,6 +98,8 @@ pub struct EpMon {
     /// frames E encoded, GOAWAY excluded
     pub frames_out_other: u64,
     pub own_sent: VecDeque<Vec<(u16, u32)>>,
+    /// in-frame index (1-based) of the last SETTINGS ACK that answered one of E's SETTINGS
+    pub last_solicited_ack_in: usize,
     pub own_acked: SettingsView,
     pub own_iws_max: u32,
     pub conn_send_win: i64,
@@ -148,6 +150,7 @@ impl EpMon {
             pings_in_mark: VecDeque::new(),
             frames_out_other: 0,
             own_sent: VecDeque::new(),
+            last_solicited_ack_in: 0,
             own_acked: SettingsView::default(),
             own_iws_max: 65_535,
             conn_send_win: 65_535,
@@ -349,6 +352,9 @@ impl Monitor {
                 if f.is_ack() {
                     if let Some(s) = e.own_sent.pop_front() {
                         e.own_acked.apply(&s);
+                        if f.payload.is_empty() {
+                            e.last_solicited_ack_in = e.in_idx;
+                        }
                     }
                 } else if f.payload.len() % 6 == 0 {
                     e.settings_in += 1;
@@ -630,6 +636,11 @@ impl Monitor {
             e.goaway_out_step.push(ev_step);
             if c != 0 && e.goaway_time.is_none() {
                 e.goaway_time = Some(now);
+            }
+            // C14: the frame E had just processed is the acknowledgement of a SETTINGS frame
+            // E really sent; failing the connection over it treats it as answering nothing
+            if c == 1 && in_idx > 0 && e.last_solicited_ack_in == in_idx {
+                self.viol("C14", "solicited-settings-ack-rejected", "", format!("{} sent GOAWAY(PROTOCOL_ERROR) right after processing a SETTINGS ACK that answers a SETTINGS frame it had sent", who));
             }
             if let Some(p) = prev {
                 if l > p {
